@@ -8,7 +8,7 @@
     ([all_fixed]: the tree the check runs against; [pinned]: the tree as found).
     Spec (Val/CoerceSpec.v): [conforms], [ref_coerce] (RefCoerce), [ref_request]. *)
 From Coq Require Import List NArith ZArith Bool.
-From ApiFu Require Import Base.Sexp Val.Values Val.CoerceModel Val.CoerceSpec Val.CoerceProofs.
+From ApiFu Require Import Base.Sexp Val.Values Val.CoerceModel Val.CoerceSpec Val.CoerceProofs Val.CoerceRefine Val.CoerceRoutes.
 Import ListNotations.
 
 (** Hypotheses, all true of the real system and checked on every case of the correspondence:
@@ -74,6 +74,117 @@ Theorem C05_complete_field_map : forall E g n fields h,
               (forall f fd, In (f, fd) fields -> ahas f kvs = true \/ (is_nonnull (in_type fd) = false /\ in_default fd = None)).
 Proof. exact conforms_object_complete. Qed.
 
+(** ** coerce_refines_ref: the model computes RefCoerce.  [agrees r o]: [r = Ok g] iff [o = Some g],
+    [r = Err] iff [o = None] (a Go panic, which only an unknown named type can cause, agrees with
+    anything).  Variable values (JSON transport): *)
+Theorem C05_var_value_refines : forall E dt j, jval_ok j = true ->
+  forall t a, agrees (coerce_var_value all_fixed E dt j t a) (ref_coerce E dt TJson (abs_json j) t a).
+Proof. exact (fun E dt => var_value_refines all_fixed E dt eq_refl eq_refl). Qed.
+
+(** literals, variables anywhere inside ([lit_nodup]: no object in it names a field twice, which
+    the validator rejects) *)
+Theorem C05_literal_refines : forall E dt vv l, env_ok E = true -> lit_nodup l = true ->
+  forall t a, agrees (coerce_literal all_fixed E dt vv l t a) (ref_coerce E dt TLiteral (abs_lit vv l) t a).
+Proof. exact (fun E dt vv l HE => literal_refines all_fixed E dt HE eq_refl eq_refl vv l). Qed.
+
+(** the whole request: for every document the validator accepts, the resolver is called with
+    exactly the reference coercion (6.1.2 + 6.4.1), and when there is none the client gets an
+    error and nothing is called *)
+Theorem C05_request_refines : forall E dt, env_ok E = true -> forall site argdefs defs args raw,
+  (forall p, In p raw -> jval_ok (snd p) = true) ->
+  static_ok all_fixed E dt site argdefs defs args = true ->
+  match run_request all_fixed E dt site argdefs defs args raw with
+  | OCalled m => ref_request E dt argdefs defs args raw = Some m
+  | ORuntimeError => ref_request E dt argdefs defs args raw = None
+  | OPanic => True
+  | OStaticReject => False
+  end.
+Proof. exact request_refines. Qed.
+
+Theorem C05_called_is_reference : forall E dt, env_ok E = true -> forall site argdefs defs args raw m,
+  (forall p, In p raw -> jval_ok (snd p) = true) ->
+  run_request all_fixed E dt site argdefs defs args raw = OCalled m ->
+  ref_request E dt argdefs defs args raw = Some m.
+Proof. exact called_is_reference. Qed.
+
+(** reject_no_call *)
+Theorem C05_reject_no_call : forall E dt, env_ok E = true -> forall site argdefs defs args raw,
+  (forall p, In p raw -> jval_ok (snd p) = true) ->
+  ref_request E dt argdefs defs args raw = None ->
+  forall m, run_request all_fixed E dt site argdefs defs args raw <> OCalled m.
+Proof. exact reject_no_call. Qed.
+
+Theorem C05_reference_is_served : forall E dt, env_ok E = true -> forall site argdefs defs args raw m,
+  (forall p, In p raw -> jval_ok (snd p) = true) ->
+  static_ok all_fixed E dt site argdefs defs args = true ->
+  ref_request E dt argdefs defs args raw = Some m ->
+  run_request all_fixed E dt site argdefs defs args raw = OCalled m \/
+  run_request all_fixed E dt site argdefs defs args raw = OPanic.
+Proof. exact reference_is_served. Qed.
+
+(** ** route_independent.  [same_value l j]: the literal and the variable value spell the same
+    client value; [strip_nn t1 = strip_nn t2]: the types differ at most in non-null wrappers (all
+    the validator allows between a variable and its location, [compatible_strip]).  Literal
+    versus variable value, any input type (input objects, defaults and hooks included): *)
+Theorem C05_route_independent : forall E dt, env_ok E = true -> forall vv l j t1 t2 a1 a2 g1 g2,
+  same_value l j -> jval_ok j = true -> strip_nn t1 = strip_nn t2 ->
+  coerce_literal all_fixed E dt vv l t1 a1 = Ok g1 ->
+  coerce_var_value all_fixed E dt j t2 a2 = Ok g2 ->
+  g1 = g2.
+Proof. exact route_independent. Qed.
+
+Theorem C05_validator_types_differ_in_non_null_only : forall lt vt,
+  types_compatible lt vt = true -> strip_nn lt = strip_nn vt.
+Proof. exact compatible_strip. Qed.
+
+(** a variable nested anywhere inside a literal ([L]) versus the same literal with the value
+    written in its place ([subst_var v r L]) *)
+Theorem C05_route_nested : forall E dt, env_ok E = true -> forall defs vv v r j def c L t a ld g1 g2,
+  find_def v defs = Some def -> aget v vv = Some c ->
+  coerce_var_value all_fixed E dt j (vd_type def) true = Ok c ->
+  same_value r j -> jval_ok j = true -> lit_nodup L = true ->
+  usage_ok all_fixed E defs L (Some t) ld = true ->
+  coerce_literal all_fixed E dt vv L t a = Ok g2 ->
+  coerce_literal all_fixed E dt vv (subst_var v r L) t a = Ok g1 ->
+  g1 = g2.
+Proof. exact route_nested. Qed.
+
+(** omitted in favour of the variable's default *)
+Theorem C05_route_variable_default : forall E dt, env_ok E = true -> forall vv l tv t a c g1,
+  lit_vars l = [] -> lit_nodup l = true -> strip_nn t = strip_nn tv ->
+  coerce_literal all_fixed E dt [] l tv true = Ok c ->
+  coerce_literal all_fixed E dt vv l t a = Ok g1 ->
+  g1 = c.
+Proof. exact route_variable_default. Qed.
+
+Theorem C05_variable_returns_value : forall E dt vv v c t a g,
+  aget v vv = Some c -> coerce_literal all_fixed E dt vv (LVar v) t a = Ok g -> g = c.
+Proof. exact variable_returns_value. Qed.
+
+(** omitted in favour of the argument's default (no argument, or a variable without a value) *)
+Theorem C05_route_argument_default : forall E dt argdefs args vv x d dv m,
+  has_dup (map fst argdefs) = false -> dup_names (map fst args) = false ->
+  In (x, d) argdefs -> in_default d = Some dv ->
+  match aget x args with Some (LVar vn) => ahas vn vv | Some _ => true | None => false end = false ->
+  coerce_argument_values all_fixed E dt argdefs args vv = Ok m ->
+  aget x m = Some (default_value dv).
+Proof. exact route_argument_default. Qed.
+
+(** the value never depends on non-null wrappers or the item-to-list flag, only acceptance does *)
+Theorem C05_ref_nn_insensitive : forall E dt tr v t1 t2 w1 w2 g1 g2,
+  strip_nn t1 = strip_nn t2 ->
+  ref_coerce E dt tr v t1 w1 = Some g1 -> ref_coerce E dt tr v t2 w2 = Some g2 -> g1 = g2.
+Proof. exact ref_nn_insensitive. Qed.
+
+(** static_dynamic_agree (partial).  Full statement: if [static_ok] holds and
+    [coerce_variable_values] succeeds, then [coerce_argument_values] fails only for a reason that
+    lives in the runtime variable values (a null value at a non-null position, a variable without
+    a value inside a list literal) or in an InputCoercion hook that refuses.  Proved here: the
+    part that matters for C05, namely that whatever passes both checks is the reference coercion
+    and conforms ([C05_request_refines], [C05_args_conform]).  Not proved: that nothing else can
+    fail at run time (completeness of validateCoercion w.r.t. coerceLiteral); the correspondence
+    check counts these cases (class argument-error) and the oracle checks each against Ref. *)
+
 (** the repaired defects: the same statements are false of the code as found *)
 Theorem C05_args_conform_refuted_before_fix :
   exists argdefs defs args raw m,
@@ -90,6 +201,19 @@ Theorem C05_cost_args_conform_refuted_before_fix :
     args_conform_b E0 argdefs m = false.
 Proof. exact cost_args_conform_refuted_before_fix. Qed.
 
+(** defect 26 and the non-null/item-to-list defect: the pinned code does not refine RefCoerce *)
+Theorem C05_refines_refuted_before_fix_bool :
+  exists j t g, jval_ok j = true /\
+    coerce_var_value pinned E0 dt0 j t true = Ok g /\
+    ref_coerce E0 dt0 TJson (abs_json j) t true = None.
+Proof. exact refines_refuted_before_fix_bool. Qed.
+
+Theorem C05_refines_refuted_before_fix_nn_flag :
+  exists j t g, jval_ok j = true /\
+    coerce_var_value pinned E0 dt0 j t true = Ok g /\
+    ref_coerce E0 dt0 TJson (abs_json j) t true = None.
+Proof. exact refines_refuted_before_fix_nn_flag. Qed.
+
 Print Assumptions C05_args_conform.
 Print Assumptions C05_called_args_conform.
 Print Assumptions C05_cost_args_conform.
@@ -98,5 +222,20 @@ Print Assumptions C05_never_null_at_non_null.
 Print Assumptions C05_always_a_list_at_list_type.
 Print Assumptions C05_declared_enum_value.
 Print Assumptions C05_complete_field_map.
+Print Assumptions C05_var_value_refines.
+Print Assumptions C05_literal_refines.
+Print Assumptions C05_request_refines.
+Print Assumptions C05_called_is_reference.
+Print Assumptions C05_reject_no_call.
+Print Assumptions C05_reference_is_served.
+Print Assumptions C05_route_independent.
+Print Assumptions C05_validator_types_differ_in_non_null_only.
+Print Assumptions C05_route_nested.
+Print Assumptions C05_route_variable_default.
+Print Assumptions C05_variable_returns_value.
+Print Assumptions C05_route_argument_default.
+Print Assumptions C05_ref_nn_insensitive.
+Print Assumptions C05_refines_refuted_before_fix_bool.
+Print Assumptions C05_refines_refuted_before_fix_nn_flag.
 Print Assumptions C05_args_conform_refuted_before_fix.
 Print Assumptions C05_cost_args_conform_refuted_before_fix.
